@@ -68,7 +68,13 @@ class OutputStream:
     def push_field(self, index: int, placeholder: str=''):
         field = self.options.get('output.field')
         # NB: use `_push` instead of `push` to skip text processing
-        self._push(field(index, placeholder, offset=self.offset, line=self.line, column=self.column))
+        text = field(index, placeholder, offset=self.offset, line=self.line, column=self.column)
+        self._push(text)
+        # A field text is written as is: keep line/column in step with the line feeds it contains
+        breaks = text.count('\n')
+        if breaks:
+            self.line += breaks
+            self.column = len(text) - text.rfind('\n') - 1
 
 
 def tag_name(name: str, config: Config):
